@@ -96,12 +96,13 @@ def sweep(chk):
       chk.violation(res[0], res[1], dict(kind='piter-sweep', api=api, parallelism=par, lens=lens, buffer=buf,
                                          stop_after=stop_after, fail_at=fail_at, fn_fail=fn_fail, main_last=(i % 4 == 3), run_seed=seed))
   # a mapped function failing on its very first element, the helper threads running ahead of the caller
-  for k in range(6):
-    res = _run_api('piter', 2, [UNBOUNDED, UNBOUNDED], 1 + k % 2, None, None, chk.seed * 31 + k, fn_fail=1, main_last=True)
+  for k in range(8):
+    # parallelism 1 and 2 (one worker in the second stage is still a second stage), failing at the 1st / 2nd element
+    res = _run_api('piter', 1 + k % 2, [UNBOUNDED, UNBOUNDED], 1 + (k // 2) % 2, None, None, chk.seed * 31 + k, fn_fail=1 + k // 4, main_last=(k % 3 != 2))
     chk.replayed()
     if res:
-      chk.violation(res[0] + ':first-element', res[1], dict(kind='piter-sweep', api='piter', parallelism=2, lens=[UNBOUNDED, UNBOUNDED], buffer=1 + k % 2,
-                                                           stop_after=None, fail_at=None, fn_fail=1, main_last=True, run_seed=chk.seed * 31 + k))
+      chk.violation(res[0] + ':first-element', res[1], dict(kind='piter-sweep', api='piter', parallelism=1 + k % 2, lens=[UNBOUNDED, UNBOUNDED], buffer=1 + (k // 2) % 2,
+                                                           stop_after=None, fail_at=None, fn_fail=1 + k // 4, main_last=(k % 3 != 2), run_seed=chk.seed * 31 + k))
   # a pool that is not larger than the number of inputs of a two-stage piter: the per-input readers take every thread
   for k, (n_in, size) in enumerate(((2, 2), (3, 3), (3, 2))):
     res = _run_api('piter', 1, [4] * n_in, 1, None, None, chk.seed * 37 + k, pool_size=size)
@@ -110,7 +111,7 @@ def sweep(chk):
       sig = res[0].replace(':plain', ':pool-not-larger-than-inputs')
       chk.violation(sig, res[1] + f' pool of {size} threads', dict(kind='piter-sweep', api='piter', parallelism=1, lens=[4] * n_in, buffer=1, pool_size=size,
                                                                     run_seed=chk.seed * 37 + k))
-  chk.coverage['sweep_runs'] = n_runs + 9
+  chk.coverage['sweep_runs'] = n_runs + 11
 
 
 class _MainLast:
